@@ -870,8 +870,17 @@ class Convert(OpSpec):
                 if not eqv(tv, sv):
                     out.fail("C08", "I3.convert.meta", f"{cname}: {what}difficulty name {tv!r} != source {sv!r}")
         outs = op.get("outs", [])
-        for (obj, kind), name in zip(regs, outs):
-            out.new.append((name, kind, obj, None, tg, dict(keys=h.meta.get("keys", 4), copy_of="convert", converted=True)))
+        # C09 lineage: a source read from a file and untouched since carries the file's denotation along
+        from ..snap import snapshot, digest
+
+        src_den = h.meta.get("src_den")
+        fresh = src_den is not None and h.meta.get("lineage_snap") == digest(snapshot(h.kind, h.obj))
+        for j, ((obj, kind), name) in enumerate(zip(regs, outs)):
+            meta = dict(keys=h.meta.get("keys", 4), copy_of="convert", converted=True)
+            if fresh:
+                meta["pipeline"] = dict(src_game=h.meta["src_game"], src_den=src_den, conv=cname, index=j if len(regs) > 1 else 0,
+                                        shift=eff_shift, snap=digest(snapshot(kind, obj)))
+            out.new.append((name, kind, obj, None, tg, meta))
         out.note = ("convert", cname, len(tgt_maps))
         hist = h.meta.get("hist", ())
         out.probes.append("convert_" + cname)
